@@ -4,6 +4,8 @@
 import GeonumModel.Lemmas.AngleStep
 import GeonumModel.Lemmas.Shift
 import GeonumModel.Lemmas.Exact
+import GeonumModel.Lemmas.FloatTrig
+import GeonumModel.Lemmas.GeonumMag
 
 set_option linter.unusedSectionVars false
 set_option linter.unusedVariables false
@@ -78,6 +80,78 @@ theorem wedge_angle {a b : Geonum F} (ha : a.angle.Inv) (hb : b.angle.Inv) :
     refine ⟨hqi, ?_, ?_⟩ <;> rw [hq.1] <;> rcases hbl with h | h <;> rw [h] <;> simp <;> omega
 
 end S
+
+/-! ### B-tier: the magnitude in ROUNDED arithmetic, angles in true radians -/
+section B
+variable {F : Type} [FloatSpec F]
+
+/-- (B) **the computed wedge magnitude is `|a||b|·|sin(T b − T a)|` to within `|a||b|·(1e-10 + 1e-14)`** (plus `1e-29`), for
+    in-domain magnitudes and canonical angles of any blade count -/
+theorem wedge_mag_float {a b : Geonum F} (ha : a.angle.Inv) (hb : b.angle.Inv) (hma : a.MagDom) (hmb : b.MagDom) :
+    abs (val (fmul (fmul a.mag b.mag) (fabs (FloatLike.sin (b.angle.geometricSub a.angle).gradeAngle)))
+        - val a.mag * val b.mag * abs (Real.sin (Angle.Tpi b.angle - Angle.Tpi a.angle)))
+      ≤ val a.mag * val b.mag * (val (e10 : F) + 1 / 10 ^ 14) + 1 / 10 ^ 29 := by
+  obtain ⟨haf, ha0, ha1⟩ := hma
+  obtain ⟨hbf, hb0, hb1⟩ := hmb
+  have hd := geometricSub_inv hb ha
+  obtain ⟨hfg, _, _, _⟩ := gradeAngle_spec hd
+  obtain ⟨hfs, hs1, _⟩ := sin_spec hfg
+  obtain ⟨hfa, hva⟩ := fabs_spec hfs
+  obtain ⟨_, hsin⟩ := cos_sub_float ha hb
+  obtain ⟨hfp, hp0, hp1⟩ := mul_dom haf hbf ha0 hb0 ha1 hb1
+  have hpv : val (fmul a.mag b.mag) = rnd (F := F) (val a.mag * val b.mag) := by
+    have hr : InRange (F := F) (val a.mag * val b.mag) := inRange_of_le (by
+      rw [abs_of_nonneg (mul_nonneg ha0 hb0)]
+      have : val a.mag * val b.mag ≤ 10 ^ 100 * 10 ^ 100 := mul_le_mul ha1 hb1 hb0 (by positivity)
+      norm_num at this ⊢; linarith)
+    exact (fmul_spec haf hbf hr).2
+  set m := val a.mag * val b.mag with hm
+  have hm0 : 0 ≤ m := mul_nonneg ha0 hb0
+  set P := val (fmul a.mag b.mag) with hP
+  set sv := val (fabs (FloatLike.sin (b.angle.geometricSub a.angle).gradeAngle)) with hsv
+  have hsv0 : 0 ≤ sv := by rw [hva]; exact abs_nonneg _
+  have hsv1 : sv ≤ 1 := by rw [hva]; exact hs1
+  have hsverr : abs (sv - abs (Real.sin (Angle.Tpi b.angle - Angle.Tpi a.angle))) ≤ val (e10 : F) + 8 / 10 ^ 15 := by
+    rw [hva]; exact le_trans (abs_abs_sub_abs_le_abs_sub _ _) hsin
+  have hPerr : |P - m| ≤ m / 2 ^ 53 + 1 / 10 ^ 30 := by
+    rw [hpv]; have := rnd_close (F := F) m; rwa [abs_of_nonneg hm0] at this
+  have hPsv : |P * sv| ≤ P := by
+    rw [abs_mul, abs_of_nonneg hp0, abs_of_nonneg hsv0]
+    calc P * sv ≤ P * 1 := mul_le_mul_of_nonneg_left hsv1 hp0
+      _ = P := mul_one _
+  obtain ⟨_, hvv⟩ := fmul_spec hfp hfa (inRange_mono (by rw [abs_of_nonneg hp0]; exact hPsv) (inRange_val hfp))
+  have hVerr : |rnd (F := F) (P * sv) - P * sv| ≤ P / 2 ^ 53 + 1 / 10 ^ 30 := by
+    have h := rnd_close (F := F) (P * sv)
+    have : |P * sv| / 2 ^ 53 ≤ P / 2 ^ 53 := div_le_div_of_nonneg_right hPsv (by positivity)
+    linarith
+  rw [hvv]
+  have e : rnd (F := F) (P * sv) - m * |Real.sin (Angle.Tpi b.angle - Angle.Tpi a.angle)|
+      = (rnd (F := F) (P * sv) - P * sv) + (P - m) * sv + m * (sv - |Real.sin (Angle.Tpi b.angle - Angle.Tpi a.angle)|) := by ring
+  rw [e]
+  have t1 := hVerr
+  have t2 : |(P - m) * sv| ≤ m / 2 ^ 53 + 1 / 10 ^ 30 := by
+    rw [abs_mul, abs_of_nonneg hsv0]
+    calc |P - m| * sv ≤ |P - m| * 1 := mul_le_mul_of_nonneg_left hsv1 (abs_nonneg _)
+      _ ≤ m / 2 ^ 53 + 1 / 10 ^ 30 := by rw [mul_one]; exact hPerr
+  have t3 : abs (m * (sv - abs (Real.sin (Angle.Tpi b.angle - Angle.Tpi a.angle)))) ≤ m * (val (e10 : F) + 8 / 10 ^ 15) := by
+    rw [abs_mul, abs_of_nonneg hm0]; exact mul_le_mul_of_nonneg_left hsverr hm0
+  have hPle : P ≤ 2 * m + 1 / 10 ^ 30 := by
+    rw [abs_le] at hPerr
+    have : m / 2 ^ 53 ≤ m := div_le_self hm0 (by norm_num)
+    linarith [hPerr.2]
+  have hP53 : P / 2 ^ 53 ≤ 2 * m / 2 ^ 53 + 1 / 10 ^ 30 := by
+    have h1 : P / 2 ^ 53 ≤ (2 * m + 1 / 10 ^ 30) / 2 ^ 53 := div_le_div_of_nonneg_right hPle (by positivity)
+    have h2 : (1:ℝ) / 10 ^ 30 / 2 ^ 53 ≤ 1 / 10 ^ 30 := div_le_self (by positivity) (by norm_num)
+    rw [add_div] at h1; linarith
+  have habs := abs_add_three (rnd (F := F) (P * sv) - P * sv) ((P - m) * sv)
+    (m * (sv - |Real.sin (Angle.Tpi b.angle - Angle.Tpi a.angle)|))
+  have hnum : (3:ℝ) / 2 ^ 53 + 8 / 10 ^ 15 ≤ 1 / 10 ^ 14 := by norm_num
+  have h53m : m / 2 ^ 53 = m * (1 / 2 ^ 53) := by ring
+  have h53m2 : 2 * m / 2 ^ 53 = m * (2 / 2 ^ 53) := by ring
+  rw [h53m2] at hP53; rw [h53m] at t2
+  nlinarith [habs, t1, t2, t3, hP53, hm0, mul_le_mul_of_nonneg_left hnum hm0]
+
+end B
 
 /-! ### E-tier: exact arithmetic -/
 section E
